@@ -12,6 +12,10 @@ from .. import dirs
 from ..oracles import c12_dirs as O
 
 FIXES = [0, 1, 2, 5, 3]
+BIG_FIXES = [1000, 2 ** 40]          # "every fix tolerance": tolerances far beyond any overshoot that can be stored
+HUGE_IDS = [2 ** 31 - 1, 2 ** 31, 2 ** 32 + 8, 2 ** 40, 2 ** 62]     # legal (non-negative) class / token ids
+EXTREME_NEG = [-2 ** 63, -2 ** 31 - 1, -2 ** 31, -100]               # "negative" = no boundary, whatever the magnitude
+LAYOUT_POOL = ["own"] * 4 + dirs.LAYOUTS[1:]                         # memory layout of a stored tensor (dirs.with_layout)
 
 
 # ---------------------------------------------------------------- generators
@@ -20,7 +24,7 @@ FIXES = [0, 1, 2, 5, 3]
 
 REPAIRABLE_MENU = ["ali_up", "ali_long", "ali_long", "ref_up", "ref_half", "ref_half", "ref_over", "ref_over"]
 FATAL_MENU = ["feat_dtype", "feat_width", "feat_rank", "ali_bad_dtype", "ali_short", "ali_rank", "ali_far",
-              "ref_bad_dtype", "ref_otherdim", "ref_rank", "ref_width", "ref_reversed", "ref_start_over", "ref_far"]
+              "ref_bad_dtype", "ref_otherdim", "ref_rank", "ref_width", "ref_reversed", "ref_start_over", "ref_far", "ref_far"]
 STRUCT_MENU = ["ali_missing", "ref_missing"]
 
 
@@ -37,18 +41,22 @@ def _clean_row(draw, T, dim):
     elif kind == "none":
         s = e = -1
     else:
-        s, e = draw(st.integers(-4, -1)), draw(st.integers(-4, -1))
+        neg = st.one_of(st.integers(-4, -1), st.integers(-4, -1), st.sampled_from(EXTREME_NEG))
+        s, e = draw(neg), draw(neg)
     return [t, s, e]
 
 
-def _tol(draw, k0):
-    """an overshoot around the tolerance: exactly k, k+1, or small / large"""
+def _tol(draw, k0, storable=False):
+    """an overshoot around the tolerance: exactly k, k+1, or small / large (``storable``: the overshoot has to be
+    written out as that many alignment frames, so a huge tolerance is only approached from below)"""
+    if k0 > 64:
+        return draw(st.sampled_from([1, 2, 5, 17, 33] if storable else [k0, k0, k0 + 1, k0 - 1, 1, 17]))
     return draw(st.sampled_from([max(k0, 1), max(k0, 1), k0 + 1, 1, 2, 5, 6]))
 
 
 @st.composite
 def dir_case(draw, tier, plans=("valid", "valid", "repairable", "repairable", "repairable", "any", "any", "fatal1"),
-             fix_choices=None, allow_missing=True):
+             fix_choices=None, allow_missing=True, allow_huge=False):
     """A directory description: 0..5 utterances with any combination of injected defects.
 
     A *plan* is drawn first (no defect / only documented-repairable ones / any mixture / one fatal), then the
@@ -57,7 +65,7 @@ def dir_case(draw, tier, plans=("valid", "valid", "repairable", "repairable", "r
     big = tier == "thorough"
     n = dirs.wdraw(draw, (1, st.just(0)), (19, st.integers(1, 5 if not big else 7)))
     F = draw(st.integers(1, 3))
-    fdt = draw(st.sampled_from(["float32", "float32", "float64"]))
+    fdt = draw(st.sampled_from(["float32", "float32", "float64", "float16"]))
     ali_dir, ref_dir = draw(st.sampled_from([True, True, False])), draw(st.sampled_from([True, True, True, False]))
     ref_dim = draw(st.sampled_from([1, 2, 2]))
     fix = draw(st.sampled_from(fix_choices if fix_choices is not None else [None] + FIXES))
@@ -67,13 +75,15 @@ def dir_case(draw, tier, plans=("valid", "valid", "repairable", "repairable", "r
         T = dirs.wdraw(draw, (1, st.just(0)), (12, st.integers(1, 6)))
         ali = ref = None
         if ali_dir:
-            ali = {"dtype": "int64", "rank": 1,
+            ali = {"dtype": "int64", "rank": 1, "layout": draw(st.sampled_from(LAYOUT_POOL)),
                    "vals": draw(st.lists(st.one_of(st.integers(0, 3), st.integers(0, 3), st.integers(0, 11)),
                                          min_size=T, max_size=T))}
         if ref_dir:
             R = dirs.wdraw(draw, (1, st.just(0)), (6, st.integers(1, 4)))
-            ref = {"dtype": "int64", "dim": ref_dim, "width": 3, "rows": [_clean_row(draw, T, ref_dim) for _ in range(R)]}
-        utts.append({"feat": {"T": T, "F": F, "dtype": fdt, "rank": 2}, "ali": ali, "ref": ref})
+            ref = {"dtype": "int64", "dim": ref_dim, "width": 3, "layout": draw(st.sampled_from(LAYOUT_POOL)),
+                   "rows": [_clean_row(draw, T, ref_dim) for _ in range(R)]}
+        utts.append({"feat": {"T": T, "F": F, "dtype": fdt, "rank": 2, "layout": draw(st.sampled_from(LAYOUT_POOL))},
+                     "ali": ali, "ref": ref})
     plan = draw(st.sampled_from(list(plans)))
     row_defects = {"ref_half", "ref_over", "ref_far", "ref_reversed", "ref_start_over"}
 
@@ -108,7 +118,9 @@ def dir_case(draw, tier, plans=("valid", "valid", "repairable", "repairable", "r
             elif what == "ali_bad_dtype":
                 ali["dtype"] = draw(st.sampled_from(["float32", "float64", "bool"]))
             elif what in ("ali_long", "ali_far"):
-                d = _tol(draw, k0) if what == "ali_long" else k0 + draw(st.integers(1, 3))
+                if what == "ali_far" and k0 > 64:
+                    continue  # an overshoot beyond a huge tolerance cannot be stored
+                d = _tol(draw, k0, storable=True) if what == "ali_long" else k0 + draw(st.integers(1, 3))
                 ali["vals"] = ali["vals"][:T] + draw(st.lists(st.integers(0, 3), min_size=d, max_size=d))
             elif what == "ali_short":
                 if T > 0:
@@ -145,15 +157,40 @@ def dir_case(draw, tier, plans=("valid", "valid", "repairable", "repairable", "r
                     s = draw(st.one_of(st.integers(0, T), st.just(T)))
                     e = T + _tol(draw, k0)
                 elif what == "ref_far":
-                    s, e = draw(st.integers(0, T)), T + k0 + draw(st.integers(1, 3))
+                    # far beyond T: by a little more than the tolerance, or by 2**32 (+ something <= T) / 2**62
+                    s = draw(st.integers(0, T))
+                    e = draw(st.sampled_from([T + k0 + 1, T + k0 + 2, T + k0 + 3, 2 ** 32 + T, 2 ** 32 + s, 2 ** 62]))
+                    if e <= T + k0:
+                        e = T + k0 + 1
                 elif what == "ref_reversed":
                     s = draw(st.integers(1, T + 2))
                     e = draw(st.integers(0, s - 1))
                 else:  # start beyond T
-                    s = T + draw(st.integers(1, 3))
+                    s = draw(st.sampled_from([T + 1, T + 2, T + 3, 2 ** 32 + draw(st.integers(0, T)), 2 ** 62]))
                     e = s + draw(st.integers(0, 2))
                 pos = draw(st.integers(0, len(ref["rows"])))
                 ref["rows"].insert(pos, [t, s, e] if ref["dim"] == 2 else [t, -1, -1])
+    if allow_huge and n and draw(st.sampled_from([False, False, True])):
+        # value class: class / token ids far beyond any vocabulary (still non-negative, as the quantifier says)
+        u = utts[draw(st.integers(0, n - 1))]
+        if u["ali"] is not None and u["ali"]["vals"]:
+            u["ali"]["vals"][draw(st.integers(0, len(u["ali"]["vals"]) - 1))] = draw(st.sampled_from(HUGE_IDS))
+        if u["ref"] is not None and u["ref"]["rows"]:
+            u["ref"]["rows"][draw(st.integers(0, len(u["ref"]["rows"]) - 1))][0] = draw(st.sampled_from(HUGE_IDS))
+    for u in utts:
+        # ids stay representable (and therefore non-negative) in the dtype they are stored with
+        for part, get in (("ali", lambda p: p["vals"]), ("ref", lambda p: [r[0] for r in p["rows"]])):
+            p = u.get(part)
+            if p is None or p["dtype"] == "int64":
+                continue
+            top = {"int32": 2 ** 31 - 1, "uint8": 255}.get(p["dtype"], 2 ** 24)
+            if part == "ali":
+                p["vals"] = [min(v, top) for v in p["vals"]]
+            else:
+                for r in p["rows"]:
+                    r[0] = min(r[0], top)
+                    if p["dtype"] == "int32":
+                        r[1], r[2] = (max(min(x, 2 ** 31 - 1), -2 ** 31) for x in r[1:])
     return {
         "prefix": draw(st.sampled_from(["", "", "p_"])),
         "suffix": draw(st.sampled_from([".pt", ".pt", ".x"])),
@@ -204,6 +241,48 @@ def _classes(ds_defects, model, fix):
     if not model["utts"]:
         cl.append("empty_set")
     return cl
+
+
+def _flat(x):
+    if isinstance(x, list):
+        for y in x:
+            yield from _flat(y)
+    else:
+        yield x
+
+
+def _case_classes(case, model):
+    """Labels of the value / layout classes that are actually on disk and inside the data set."""
+    cl = set()
+    for i, u in enumerate(case["utts"]):
+        if u.get("id", "u%d" % i) not in model["utts"]:
+            continue
+        for part in ("feat", "ali", "ref"):
+            p = u.get(part)
+            if p is None or (part != "feat" and not case.get(part + "_dir", True)):
+                continue
+            if p.get("layout", "own") != "own":
+                cl.add("layout_" + p["layout"])
+    parts = list(model["utts"].values())
+    if parts and all(p["feat"]["dtype"] == "torch.float16" for p in parts):
+        cl.add("feat_float16")
+    for p in parts:
+        ali, ref = p.get("ali"), p.get("ref")
+        if ali is not None and ali["dtype"] == O.LONG and any(v >= 2 ** 31 - 1 for v in _flat(ali["data"])):
+            cl.add("huge_ids")
+        if ref is None or ref["dtype"] != O.LONG:
+            continue
+        if len(ref["shape"]) == 1 and any(v >= 2 ** 31 - 1 for v in ref["data"]):
+            cl.add("huge_ids")
+        if len(ref["shape"]) == 2 and ref["shape"][1] == 3:
+            for tok, b, e in ref["data"]:
+                if tok >= 2 ** 31 - 1:
+                    cl.add("huge_ids")
+                if b < 0 and e < 0 and min(b, e) <= -100:
+                    cl.add("extreme_negative_bounds")
+                if max(b, e) >= 2 ** 31:
+                    cl.add("huge_bounds")
+    return sorted(cl)
 
 
 def _nontrivial(ds_defects, fix):
@@ -264,14 +343,19 @@ def _fix_step(ds, data_dir, case, model, disk, k):
 
 
 def _strict_strategy(tier):
-    return dir_case(tier, plans=("valid", "valid", "repairable", "any", "any", "any", "any", "fatal1"), fix_choices=[None])
+    return dir_case(tier, plans=("valid", "valid", "repairable", "any", "any", "any", "any", "fatal1"), fix_choices=[None],
+                    allow_huge=True)
 
 
 @subcheck("C12", "strict_accept", _strict_strategy, quick=1000, thorough=15000,
           doc="directories with any combination of injected defects; strict validation raises ValueError iff the "
-              "predicate written from conditions 1-6.3.2 rejects; directory untouched; discovery by prefix/suffix",
+              "predicate written from conditions 1-6.3.2 rejects; directory untouched; discovery by prefix/suffix; "
+              "stored tensors also as views (offset / column slice / transposed / strided), ids up to 2**62, "
+              "boundaries down to -2**63 and beyond 2**32, float16 features",
           required_classes=["valid", "defects_1", "defects_2", "defects_3plus", "defect_ref_over", "defect_ali_long",
-                            "defect_ref_dim_mixed", "defect_feat_dtype_mixed", "defect_ref_half"])
+                            "defect_ref_dim_mixed", "defect_feat_dtype_mixed", "defect_ref_half",
+                            "layout_offset", "layout_colslice", "layout_transposed", "layout_strided", "huge_ids",
+                            "extreme_negative_bounds", "huge_bounds", "feat_float16"])
 def _strict_check(case):
     with dirs.scratch_root() as root:
         data_dir = os.path.join(root, "data")
@@ -281,7 +365,7 @@ def _strict_check(case):
         ds = _dataset(data_dir, case)
         _expect_members(ds, model)
         ds_defects = _strict_step(ds, data_dir, case, model, disk)
-    cl = _classes(ds_defects, model, None)
+    cl = _classes(ds_defects, model, None) + _case_classes(case, model)
     if len(model["utts"]) < len(case["utts"]):
         cl.append("utt_missing_in_subdir")
     if case["distract"]:
@@ -294,15 +378,18 @@ def _strict_check(case):
 
 def _fix_strategy(tier):
     return dir_case(tier, plans=("valid", "repairable", "repairable", "repairable", "repairable", "any", "any", "any", "fatal1"),
-                    fix_choices=FIXES + ([4, 7] if tier == "thorough" else []))
+                    fix_choices=FIXES + BIG_FIXES + ([4, 7] if tier == "thorough" else []), allow_huge=True)
 
 
 @subcheck("C12", "fix_repair", _fix_strategy, quick=1500, thorough=20000,
           doc="same directories with fix=k: raises iff some defect is not among the documented repairs for k; "
               "otherwise files on disk == oracle's repaired tensors, strict validation then passes, a second fix "
-              "pass changes nothing; a failed pass leaves every file untouched or repaired",
+              "pass changes nothing; a failed pass leaves every file untouched or repaired; stored tensors also as "
+              "views (the repair is then made inside a view and written back), tolerances 1000 and 2**40",
           required_classes=["repaired", "unrepairable", "tolerance_exact", "tolerance_plus_one", "defect_ref_half",
-                            "defect_ali_dtype", "defect_ref_over", "defect_ali_long"])
+                            "defect_ali_dtype", "defect_ref_over", "defect_ali_long",
+                            "repair_on_view", "layout_offset", "layout_colslice", "layout_transposed", "layout_strided",
+                            "fix_big", "fix_big_tolerance_exact", "huge_ids"])
 def _fix_check(case):
     k = case["fix"]
     with dirs.scratch_root() as root:
@@ -325,10 +412,16 @@ def _fix_check(case):
             # still invalid for strict validation, and a second pass fails again
             _strict_step(ds, data_dir, case, new_model, new_disk)
             _fix_step(ds, data_dir, case, new_model, new_disk, k)
-    cl = _classes(ds_defects, model, k)
-    cl.append("fix_%d" % k)
+    cl = _classes(ds_defects, model, k) + _case_classes(case, model)
+    cl.append("fix_%d" % k if k <= 64 else "fix_big")
+    if k > 64 and "tolerance_exact" in cl:
+        cl.append("fix_big_tolerance_exact")
     if ds_defects:
         cl.append("repaired" if ok else "unrepairable")
+        by_id = {u.get("id", "u%d" % i): u for i, u in enumerate(case["utts"])}
+        if ok and any(d["uid"] is not None and (by_id[d["uid"]].get(d["part"]) or {}).get("layout", "own") != "own"
+                      for d in ds_defects):
+            cl.append("repair_on_view")
     return Info(nontrivial=_nontrivial(ds_defects, k), classes=cl)
 
 
@@ -343,9 +436,13 @@ def _history_case(draw, tier):
     ops = []
     m = draw(st.integers(2, 7 if tier == "quick" else 12))
     for _ in range(m):
-        kind = draw(st.sampled_from(["validate", "fix", "fix", "corrupt", "corrupt", "info"]))
+        kind = draw(st.sampled_from(["validate", "fix", "fix", "corrupt", "corrupt", "info", "fresh"]))
+        # two data set objects look at the same directory; ``who`` says which of them acts
+        who = draw(st.sampled_from([0, 0, 1]))
         if kind == "fix":
-            ops.append(["fix", draw(st.sampled_from(FIXES))])
+            ops.append(["fix", draw(st.sampled_from(FIXES)), who])
+        elif kind in ("validate", "fresh"):
+            ops.append([kind, who])
         elif kind == "corrupt":
             i = draw(st.integers(0, n - 1))
             part = draw(st.sampled_from(["ali", "ref", "ref", "feat"]))
@@ -370,9 +467,11 @@ def _transplant(case, i, part, src):
 
 
 @subcheck("C12", "history", _history_case, quick=400, thorough=6000,
-          doc="validate / fix(k) / corrupt-one-file / report histories on one directory and one data set object; "
-              "every step is compared with the reference model (accept, repair, raise, recount)",
-          required_classes=["fix_after_corrupt", "repaired", "unrepairable"])
+          doc="validate / fix(k) / corrupt-one-file / report histories on one directory seen by two data set objects "
+              "(either may act, either may be re-created half-way); every step is compared with the reference model "
+              "(accept, repair, raise, recount)",
+          required_classes=["fix_after_corrupt", "repaired", "unrepairable", "second_object_acts",
+                            "validate_after_other_objects_fix", "object_recreated", "layout_transposed", "layout_offset"])
 def _history_check(case):
     cl = set()
     nontrivial = False
@@ -381,16 +480,32 @@ def _history_check(case):
         dirs.write_dir(data_dir, case)
         disk = dirs.read_dir(data_dir, case)
         model = dirs.model_of(disk, case)
-        ds = _dataset(data_dir, case)
-        _expect_members(ds, model)
+        objs = [_dataset(data_dir, case), _dataset(data_dir, case)]
+        _expect_members(objs[0], model)
         corrupted = False
+        last_fixer = None
         for op in case["ops"]:
-            if op[0] == "validate":
+            who = 0
+            if op[0] in ("validate", "fresh") and len(op) == 2:
+                who = op[1]
+            elif op[0] == "fix" and len(op) == 3:
+                who = op[2]
+            ds = objs[who]
+            if who:
+                cl.add("second_object_acts")
+            if op[0] == "fresh":
+                objs[who] = _dataset(data_dir, case)
+                _expect_members(objs[who], model)
+                cl.add("object_recreated")
+            elif op[0] == "validate":
                 d = _strict_step(ds, data_dir, case, model, disk)
                 cl.add("validate_rejects" if d else "validate_accepts")
+                if last_fixer is not None and last_fixer != who:
+                    cl.add("validate_after_other_objects_fix")
             elif op[0] == "fix":
                 d = O.defects(model)
                 model, disk, ok = _fix_step(ds, data_dir, case, model, disk, op[1])
+                last_fixer = who
                 if d:
                     cl.add("repaired" if ok else "unrepairable")
                     if corrupted:
@@ -423,6 +538,7 @@ def _history_check(case):
                 cl.add("report")
                 after = dirs.read_dir(data_dir, case)
                 require(after == disk, "the report command changed the directory", _diff(after, disk), None)
+        cl.update(_case_classes(case, model))
     return Info(nontrivial=nontrivial, classes=sorted(cl))
 
 
@@ -477,7 +593,8 @@ def _info_strategy(tier):
               "directories: raises iff validation must; output == key-by-key recount of the (repaired) stored "
               "tensors by the documented key definitions; --fix k repairs on disk like fix=k",
           required_classes=["valid", "report_after_repair", "cli_rejects", "has_ali", "has_ref_2d", "ref_boundaries",
-                            "class_ge_10"])
+                            "class_ge_10", "report_on_views", "layout_transposed", "layout_strided",
+                            "extreme_negative_bounds"])
 def _info_check(case):
     mode = case["mode"]
     case = case["dir"]
@@ -521,6 +638,10 @@ def _info_check(case):
             after = dirs.read_dir(data_dir, case)
             require(after == disk, "the report command without --fix changed the directory", _diff(after, disk), None)
     cl += _classes(ds_defects, model, k if mode == "fix" else None)
+    views = _case_classes(case, model)
+    cl += views
+    if "cli_rejects" not in cl and any(c.startswith("layout_") for c in views):
+        cl.append("report_on_views")
     utts = model["utts"].values()
     if model["has_ali"]:
         cl.append("has_ali")
@@ -544,32 +665,72 @@ def _info_check(case):
 # ---------------------------------------------------------------- 5. sos / eos
 
 
-def _sos_strategy(tier):
+LONG_R = [15, 16, 17, 31, 32, 33, 63, 64, 65, 127, 128, 129, 255, 256, 257, 1023, 1024, 1025, 2049]
+SOS_HUGE_TOK = [2 ** 31 - 1, 2 ** 32 + 8, 2 ** 32 + 9, 2 ** 40, 2 ** 62]    # never equal to a start / end symbol
+SOS_HUGE_SPECIAL = [2 ** 31, 2 ** 40 + 1]
+SOS_EXTREME_BOUND = [-2 ** 63, -100, 2 ** 40, 2 ** 62]
+
+
+def _gen_rows(R, a, b):
+    """R rows expanded from three integers (a pure function): tokens 0..6, boundaries unknown / small"""
+    rows = []
+    for j in range(R):
+        unknown = (j + b) % 3 == 0
+        rows.append([(a * j + b) % 7, -1 if unknown else j % 6, -1 if unknown else j % 6 + (j + a) % 3])
+    return rows
+
+
+@st.composite
+def _sos_strategy(draw, tier):
+    dtype = draw(st.sampled_from(["int64", "int64", "int32"]))
+    wide = dtype == "int64" and draw(st.sampled_from([False, False, True]))   # values beyond 32 bits
     tok = st.integers(0, 6)
-    row = st.tuples(tok, st.integers(-1, 5), st.integers(-1, 7)).map(list)
-    ref = st.one_of(st.just([]), st.lists(row, min_size=0, max_size=4), st.lists(row, min_size=1, max_size=6))
+    start, end = st.integers(-1, 5), st.integers(-1, 7)
     special = st.one_of(st.none(), st.integers(7, 9), st.integers(7, 12), st.integers(-2, -1))
-    return st.fixed_dictionaries({
-        "kind": st.sampled_from(["spect", "spect", "lang"]),
-        "dim": st.sampled_from([1, 2]),
-        "tokens_only": st.booleans(),
-        "suppress_alis": st.booleans(),
-        "suppress_uttids": st.booleans(),
-        "with_ali": st.booleans(),
-        "dtype": st.sampled_from(["int64", "int64", "int32"]),
-        "sos": special, "eos": special,
-        "refs": st.lists(ref, min_size=1, max_size=4),
-        "by_index": st.booleans(),
-        "prefix": st.sampled_from(["", "p_"]),
-        "suffix": st.sampled_from([".pt", ".x"]),
-    })
+    if wide:
+        tok = st.one_of(tok, tok, st.sampled_from(SOS_HUGE_TOK))
+        start = st.one_of(start, start, st.sampled_from(SOS_EXTREME_BOUND))
+        end = st.one_of(end, end, st.sampled_from(SOS_EXTREME_BOUND))
+        special = st.one_of(special, st.sampled_from(SOS_HUGE_SPECIAL))
+    row = st.tuples(tok, start, end).map(list)
+    ref = st.one_of(st.just([]), st.lists(row, min_size=0, max_size=4), st.lists(row, min_size=1, max_size=6))
+    if draw(st.sampled_from([False, False, False, True])):
+        # a long transcript, expanded from three integers by _gen_rows
+        sizes = LONG_R[:15] if tier == "quick" else LONG_R
+        ref = st.one_of(ref, st.fixed_dictionaries({
+            "R": st.one_of(st.sampled_from(sizes), st.sampled_from(LONG_R)), "a": st.integers(1, 6), "b": st.integers(0, 6)}))
+    refs = draw(st.lists(ref, min_size=1, max_size=4))
+    return {
+        "kind": draw(st.sampled_from(["spect", "spect", "lang"])),
+        "dim": draw(st.sampled_from([1, 2])),
+        "tokens_only": draw(st.booleans()),
+        "suppress_alis": draw(st.booleans()),
+        "suppress_uttids": draw(st.booleans()),
+        "with_ali": draw(st.booleans()),
+        "dtype": dtype,
+        "sos": draw(special), "eos": draw(special),
+        "refs": refs,
+        # memory layout of each stored reference (dirs.with_layout)
+        "layouts": [draw(st.sampled_from(LAYOUT_POOL)) for _ in refs],
+        "by_index": draw(st.booleans()),
+        "prefix": draw(st.sampled_from(["", "p_"])),
+        "suffix": draw(st.sampled_from([".pt", ".x"])),
+        # call patterns: every item read twice; a different hypothesis already written under the same name
+        "reread": draw(st.booleans()),
+        "overwrite": draw(st.booleans()),
+    }
 
 
 @subcheck("C12", "sos_eos_roundtrip", _sos_strategy, quick=1500, thorough=20000,
           doc="SpectDataSet / LangDataSet over 1-D and 2-D references including empty ones: reading yields "
               "[sos] + tokens + [eos] (2-D: rows with -1 boundaries); write_hyp of what was read, loaded raw, "
-              "equals the bare tokens; tuple layout for every suppress_* combination",
-          required_classes=["empty_ref_with_sos_or_eos", "dim_2", "dim_1", "lang", "spect", "tokens_only_2d"])
+              "equals the bare tokens; tuple layout for every suppress_* combination; stored references also as "
+              "views, 15..2049 tokens long, ids / symbols / boundaries beyond 32 bits; items read twice, an older "
+              "hypothesis of the same name overwritten, the tensor handed to write_hyp left unchanged",
+          required_classes=["empty_ref_with_sos_or_eos", "dim_2", "dim_1", "lang", "spect", "tokens_only_2d",
+                            "layout_offset", "layout_colslice", "layout_transposed", "layout_strided",
+                            "tokens_only_2d_on_view", "long_ref", "long_ref_ge_1023", "wide_values", "reread",
+                            "overwrite"])
 def _sos_check(case):
     import torch
     from pydrobert.torch import data
@@ -579,16 +740,35 @@ def _sos_check(case):
         eos = sos + 13  # the two symbols are distinct
     dim, tokens_only = case["dim"], case["tokens_only"]
     cl = ["dim_%d" % dim, case["kind"]]
+    refs_in = [(_gen_rows(r["R"], r["a"], r["b"]) if isinstance(r, dict) else r) for r in case["refs"]]
+    layouts = case.get("layouts") or ["own"] * len(refs_in)
+    longest = max(len(r) for r in refs_in)
+    if longest >= 15:
+        cl.append("long_ref")
+    if longest >= 1023:
+        cl.append("long_ref_ge_1023")
+    if any(abs(v) >= 2 ** 31 for r in refs_in for row in r for v in (row if dim == 2 else row[:1])) or \
+            any(x is not None and abs(x) >= 2 ** 31 for x in (sos, eos)):
+        cl.append("wide_values")
+    for lay in set(layouts):
+        if lay != "own":
+            cl.append("layout_" + lay)
+    if dim == 2 and tokens_only and any(lay != "own" for lay in layouts):
+        cl.append("tokens_only_2d_on_view")
+    if case.get("reread"):
+        cl.append("reread")
+    if case.get("overwrite"):
+        cl.append("overwrite")
     empty_special = False
     with dirs.scratch_root() as root:
         data_dir = os.path.join(root, "data")
         dcase = {"prefix": case["prefix"], "suffix": case["suffix"], "ali_dir": case["with_ali"], "ref_dir": True, "utts": []}
-        for i, rows in enumerate(case["refs"]):
+        for i, rows in enumerate(refs_in):
             T = 3 + i
             dcase["utts"].append({
                 "feat": {"T": T, "F": 2, "dtype": "float32", "rank": 2, "base": 8 * i},
                 "ali": {"dtype": "int64", "rank": 1, "vals": [i] * T},
-                "ref": {"dtype": case["dtype"], "dim": dim, "width": 3, "rows": rows},
+                "ref": {"dtype": case["dtype"], "dim": dim, "width": 3, "rows": rows, "layout": layouts[i]},
             })
         dirs.write_dir(data_dir, dcase)
         hyp_dir = os.path.join(root, "hyp")
@@ -603,10 +783,12 @@ def _sos_check(case):
             ds = data.LangDataSet(os.path.join(data_dir, "ref"), params, file_prefix=case["prefix"],
                                   file_suffix=case["suffix"], suppress_uttids=case["suppress_uttids"],
                                   tokens_only=tokens_only)
-        require(len(ds) == len(case["refs"]), "len(data set)", len(ds), len(case["refs"]))
-        for i, rows in enumerate(case["refs"]):
+        require(len(ds) == len(refs_in), "len(data set)", len(ds), len(refs_in))
+        for i, rows in enumerate(refs_in):
             uid = "u%d" % i
             item = ds[i]
+            if case.get("reread"):
+                item = ds[i]  # the judged one is the second reading
             # ---- tuple layout
             if case["kind"] == "spect":
                 want_len = 2 + (not case["suppress_alis"]) + (not case["suppress_uttids"])
@@ -648,13 +830,22 @@ def _sos_check(case):
             require(ref.dim() == len(bare_shape), "dimensionality of the reference read", list(ref.shape), bare_shape)
             # ---- write_hyp strips them again
             utt = i if case["by_index"] else uid
-            if case["kind"] == "spect" and i % 2 == 0:
-                ds.write_hyp(utt, ref)  # default: <data_dir>/hyp
-                pth = os.path.join(data_dir, "hyp", case["prefix"] + uid + case["suffix"])
+            keep = ref.clone()
+            default_dir = case["kind"] == "spect" and i % 2 == 0  # default: <data_dir>/hyp
+            pth = os.path.join(os.path.join(data_dir, "hyp") if default_dir else hyp_dir, case["prefix"] + uid + case["suffix"])
+            if case.get("overwrite"):
+                decoy = torch.full((2, 3) if ref.dim() == 2 else (2,), 5, dtype=torch.long)
+                if default_dir:
+                    ds.write_hyp(utt, decoy)
+                else:
+                    ds.write_hyp(utt, decoy, hyp_dir)
+            if default_dir:
+                ds.write_hyp(utt, ref)
             else:
                 ds.write_hyp(utt, ref, hyp_dir)
-                pth = os.path.join(hyp_dir, case["prefix"] + uid + case["suffix"])
             require(os.path.isfile(pth), "write_hyp did not write <prefix><utt><suffix>", sorted(os.listdir(root)), pth)
+            require(ref.dtype == keep.dtype and ref.shape == keep.shape and bool((ref == keep).all()),
+                    "write_hyp changed the tensor it was given", ref.tolist(), keep.tolist())
             back = torch.load(pth)
             require(back.tolist() == bare and list(back.shape) == bare_shape and back.dtype == torch.long,
                     "hypothesis written from a read reference does not load as the bare tokens",
@@ -671,43 +862,88 @@ def _sos_check(case):
 # ---------------------------------------------------------------- 6. write_hyp on noisy hypotheses
 
 
+# garbage in the ignored regions (before the last sos / after the first eos) beyond plain tokens; written as strings
+# in the case, mapped to numbers by the hypothesis' dtype (none of them converts to the start or end symbol)
+JUNK = ["nan", "inf", "-inf", "fbig", "hi_sos", "hi_eos", "neg", "imax"]
+
+
+def _junk_value(x, dtype):
+    """the number a case element stands for in a hypothesis of this dtype"""
+    if not isinstance(x, str):
+        return x
+    if dtype == "int32":
+        return {"neg": -5, "hi_sos": -2 ** 31 + 8, "hi_eos": -2 ** 31 + 9, "big": 2 ** 31 - 1}.get(x, 2 ** 31 - 1)
+    if dtype == "int64":
+        return {"neg": -5, "hi_sos": 2 ** 32 + 8, "hi_eos": 2 ** 32 + 9, "big": 2 ** 40 + 3, "-inf": -2 ** 63}.get(x, 2 ** 62)
+    f32 = dtype == "float32"
+    return {"nan": float("nan"), "inf": float("inf"), "-inf": float("-inf"), "fbig": 3e38 if f32 else 1e300,
+            "hi_sos": float(2 ** 32 + (4096 if f32 else 8)), "hi_eos": float(2 ** 32 + (8192 if f32 else 9)), "neg": -5.0,
+            "imax": float(2 ** 62), "big": float(2 ** 24 if f32 else 2 ** 40 + 3)}[x]
+
+
 def _strip_strategy(tier):
     tok = st.integers(0, 5)
+    junk = st.sampled_from(JUNK)
+    body_tok = st.one_of(tok, tok, tok, st.just("big"))   # "big": an id beyond 32 bits where the dtype can hold it
     return st.fixed_dictionaries({
         "dim": st.sampled_from([1, 2]),
         "sos": st.one_of(st.none(), st.just(8)),
         "eos": st.one_of(st.none(), st.just(9)),
         # garbage before the start symbol may repeat sos; after the end symbol may repeat eos
-        "before": st.lists(st.one_of(tok, st.just(8)), max_size=4),
-        "body": st.lists(tok, max_size=5),
-        "after": st.lists(st.one_of(tok, st.just(9)), max_size=4),
+        "before": st.lists(st.one_of(tok, st.just(8), junk), max_size=4),
+        "body": st.one_of(st.lists(tok, max_size=5), st.lists(body_tok, max_size=5)),
+        "after": st.lists(st.one_of(tok, st.just(9), junk), max_size=4),
         "has_sos": st.booleans(), "has_eos": st.booleans(),
-        "dtype": st.sampled_from(["int64", "int32", "float32"]),
+        "dtype": st.sampled_from(["int64", "int64", "int32", "float32", "float64"]),
         "kind": st.sampled_from(["spect", "lang"]),
+        "layout": st.sampled_from(LAYOUT_POOL),
+        # long hypotheses: the body is repeated until it has about this many tokens
+        "stretch": st.sampled_from([0, 0, 0, 0, 17, 65, 257, 1025]),
     })
 
 
-@subcheck("C12", "write_hyp_strip", _strip_strategy, quick=600, thorough=8000,
-          doc="hypotheses garbage + [sos] + body + [eos] + garbage (garbage may repeat sos before / eos after): "
-              "stored file == body as a long tensor (documented: drop through the last sos, from the first eos)",
-          required_classes=["garbage_before", "garbage_after", "empty_body"])
+@subcheck("C12", "write_hyp_strip", _strip_strategy, quick=800, thorough=8000,
+          doc="hypotheses garbage + [sos] + body + [eos] + garbage (garbage may repeat sos before / eos after, hold "
+              "NaN / inf / ids beyond 32 bits): stored file == body as a long tensor (documented: drop through the "
+              "last sos, from the first eos); hypothesis int32/int64/float32/float64, also as a view, up to ~1000 tokens",
+          required_classes=["garbage_before", "garbage_after", "empty_body", "junk_non_finite", "junk_beyond_32_bits",
+                            "body_beyond_32_bits", "layout_offset", "layout_colslice", "layout_transposed",
+                            "layout_strided", "long_body"])
 def _strip_check(case):
     import torch
     from pydrobert.torch import data
 
-    sos, eos, dim = case["sos"], case["eos"], case["dim"]
-    seq = list(case["body"])
+    sos, eos, dim, dtype = case["sos"], case["eos"], case["dim"], case["dtype"]
+    body = [_junk_value(x, dtype) for x in case["body"]]
+    if case.get("stretch") and body:
+        body = (body * (case["stretch"] // len(body) + 1))[:case["stretch"]]
+    before = [_junk_value(x, dtype) for x in case["before"]]
+    after = [_junk_value(x, dtype) for x in case["after"]]
+    seq = list(body)
     cl = []
+    used = []
     if sos is not None and case["has_sos"]:
-        seq = list(case["before"]) + [sos] + seq
-        if case["before"]:
+        seq = before + [sos] + seq
+        used += case["before"]
+        if before:
             cl.append("garbage_before")
     if eos is not None and case["has_eos"]:
-        seq = seq + [eos] + list(case["after"])
-        if case["after"]:
+        seq = seq + [eos] + after
+        used += case["after"]
+        if after:
             cl.append("garbage_after")
-    if not case["body"]:
+    if not body:
         cl.append("empty_body")
+    if dtype.startswith("float") and any(x in ("nan", "inf", "-inf", "fbig") for x in used):
+        cl.append("junk_non_finite")
+    if dtype != "int32" and any(x in ("hi_sos", "hi_eos", "imax") for x in used):
+        cl.append("junk_beyond_32_bits")
+    if dtype in ("int64", "float64") and "big" in case["body"]:
+        cl.append("body_beyond_32_bits")
+    if len(body) >= 17:
+        cl.append("long_body")
+    if case.get("layout", "own") != "own":
+        cl.append("layout_" + case["layout"])
 
     def rows(tokens):
         return [[t, j, j + 1] for j, t in enumerate(tokens)] if dim == 2 else list(tokens)
@@ -715,12 +951,14 @@ def _strip_check(case):
     hyp_rows = rows(seq)
     # the body rows as they appear inside the full hypothesis
     if sos is not None and case["has_sos"]:
-        off = len(case["before"]) + 1
+        off = len(before) + 1
     else:
         off = 0
-    want = hyp_rows[off:off + len(case["body"])]
-    shape = [len(case["body"]), 3] if dim == 2 else [len(case["body"])]
-    hyp = torch.tensor(hyp_rows, dtype=dirs.DTYPES[case["dtype"]]).reshape([len(seq)] + shape[1:])
+    want = [[int(x) for x in r] if dim == 2 else int(r) for r in hyp_rows[off:off + len(body)]]
+    shape = [len(body), 3] if dim == 2 else [len(body)]
+    hyp = torch.tensor(hyp_rows, dtype=dirs.DTYPES[dtype]).reshape([len(seq)] + shape[1:])
+    hyp = dirs.with_layout(hyp, case.get("layout"))
+    keep = hyp.clone()
     with dirs.scratch_root() as root:
         data_dir = os.path.join(root, "data")
         dcase = {"prefix": "", "suffix": ".pt", "ali_dir": False, "ref_dir": True,
@@ -736,7 +974,207 @@ def _strip_check(case):
             ds = data.LangDataSet(os.path.join(data_dir, "ref"), data.LangDataParams(sos=sos, eos=eos))
         ds.write_hyp("special", hyp, hyp_dir)
         back = torch.load(os.path.join(hyp_dir, "special.pt"))
+    same = (hyp == keep) | ((hyp != hyp) & (keep != keep))  # NaN garbage stays NaN
+    require(hyp.dtype == keep.dtype and hyp.shape == keep.shape and bool(same.all()),
+            "write_hyp changed the tensor it was given", hyp.tolist(), keep.tolist())
     require(back.dtype == torch.long and back.tolist() == want and list(back.shape) == shape,
             "stored hypothesis is not the part between the last sos and the first eos, as a long tensor",
             dirs.stored(back), {"dtype": "torch.int64", "shape": shape, "data": want})
-    return Info(nontrivial=bool(cl) and bool(seq), classes=cl + ["dim_%d" % dim])
+    rule = [c for c in cl if c in ("garbage_before", "garbage_after", "empty_body")]
+    return Info(nontrivial=bool(rule) and bool(seq), classes=cl + ["dim_%d" % dim])
+
+
+# ---------------------------------------------------------------- 7. sizes across implementation thresholds
+
+SIZES = [15, 16, 17, 31, 32, 33, 63, 64, 65, 127, 128, 129, 255, 256, 257, 1023, 1024, 1025, 2049]
+MAX_IDS = [3, 9, 10, 11, 99, 100, 101, 999, 1000, 1001]    # the report pads its keys to the width of the largest id
+POSITIONS = ["last", "first", "mid", "p16", "p1024"]
+
+
+def _pick(table):
+    """one entry of ``table``, chosen through a single integer (the table's weights are then respected much better
+    than by nested sampled_from in budgets of a few dozen cases); shrinks towards table[0]"""
+    table = list(table)
+    return st.integers(0, 10 ** 6).map(lambda v: table[v % len(table)])
+
+
+def _size_table(tier, heavy):
+    """sizes from SIZES; ``heavy`` = every unit of size costs three files on disk, so the big ones are made rare"""
+    if not heavy:
+        return SIZES[:15] + SIZES   # every size, the cheap ones twice
+    if tier == "quick":
+        return SIZES[:9] * 5 + SIZES[9:12] * 4 + SIZES[12:15] * 2   # 1023..2049 utterances: thorough tier only
+    return SIZES[:9] * 2 + SIZES[9:12] * 4 + SIZES[12:15] * 4 + SIZES[15:]
+
+
+def _large_strategy(mode):
+    def strat(tier):
+        many = mode == "many_utts"
+        general = st.fixed_dictionaries(fields(tier, many, False))
+        # one case in six puts a reference / alignment defect deep into the directory: at the last utterance of
+        # >= 255, or in the last row of >= 1024 (where a loop that stops early, or works in blocks, would not look)
+        deep = st.fixed_dictionaries(fields(tier, many, True))
+        return st.integers(0, 5).flatmap(lambda v: deep if v == 5 else general)
+
+    def fields(tier, many, deep):
+        big_n = SIZES[9:15] if tier == "quick" else SIZES[12:]
+        return ({
+            "mode": st.just(mode),
+            # many utterances of a few frames, or a few utterances of many frames / tokens
+            "n": _pick(big_n if deep else _size_table(tier, True)) if many else st.integers(1, 2),
+            "T": st.integers(1, 3) if many else _pick(_size_table(tier, False)),
+            "R": st.integers(1 if deep else 0, 3) if many else _pick(SIZES[16:] if deep else [0, 1, 2, 3] * 3 + _size_table(tier, False)),
+            "F": st.integers(1, 2),
+            "fdt": st.sampled_from(["float32", "float64"]),
+            "a": st.integers(1, 7), "b": st.integers(0, 5),
+            "max_ali": _pick(MAX_IDS), "max_ref": _pick(MAX_IDS),
+            "ali_dir": _pick([True, True, True, False]), "ref_dir": _pick([True] if deep else [True, True, True, True, False]),
+            "ref_dim": _pick([2] if deep else [2, 2, 2, 1]),
+            "layout": _pick(LAYOUT_POOL),
+            # one defect (or none) at a position that is resolved against the sizes: utterance, then row / overshoot
+            "defect": _pick(["ref_over", "ref_half", "ref_reversed", "ref_over", "ref_half"] if deep else
+                            [None, None, None, "ali_long", "ali_long", "ref_over", "ref_over", "ref_over", "ref_half",
+                             "ref_half", "ref_reversed", "ali_up", "ref_up", "feat_width", "ali_short"]),
+            "upos": _pick((["last"] if many else ["first"]) if deep else ["first", "last", "last"] + POSITIONS),
+            "rpos": _pick(["last", "p1024"] if deep else ["first", "last", "last", "last"] + POSITIONS),
+            "over": _pick([1, 2, 5, 6]),
+            "fix": _pick([None, None, 0, 1, 2, 5, 5]),
+            "prefix": st.just(""), "suffix": st.just(".pt"),
+        })
+    return strat
+
+
+def _resolve(pos, n):
+    """an index 0..n-1 from a position word"""
+    if n <= 0:
+        return None
+    return {"last": n - 1, "first": 0, "mid": n // 2, "p16": min(16, n - 1), "p1024": min(1024, n - 1)}[pos]
+
+
+def _expand_large(case):
+    """The directory description (as for dirs.write_dir) a large case stands for - a pure function of the case."""
+    n, T, R, F, a, b = case["n"], case["T"], case["R"], case["F"], case["a"], case["b"]
+    ma, mr = case["max_ali"], case["max_ref"]
+    utts = []
+    for i in range(n):
+        Ti = T + (i * a) % 2 if case["mode"] == "many_utts" else T - (i % 2)
+        Ri = (R + i * b) % 4 if case["mode"] == "many_utts" else max(R - 2 * i, 0)
+        vals = [((a * t) // 3 + b * i) % (ma + 1) for t in range(Ti)]
+        rows = []
+        for j in range(Ri):
+            tok = (a * j + b + i) % (mr + 1)
+            s0 = (j * Ti) // max(Ri, 1)
+            e0 = min(Ti, s0 + 1 + (j + a) % 3)
+            if (j + i + b) % 4 == 0:
+                s0 = e0 = -1 - (j % 3)
+            rows.append([tok, s0, e0])
+        utts.append({"feat": {"T": Ti, "F": F, "dtype": case["fdt"], "rank": 2, "base": (8 * i) % 256, "layout": case["layout"]},
+                     "ali": {"dtype": "int64", "rank": 1, "vals": vals, "layout": case["layout"]},
+                     "ref": {"dtype": "int64", "dim": case["ref_dim"], "width": 3, "rows": rows, "layout": case["layout"]}})
+    # the largest ids occur (in the utterance the defect does not touch first)
+    if n:
+        last = utts[-1]
+        if last["ali"]["vals"]:
+            last["ali"]["vals"][-1] = ma
+        if last["ref"]["rows"]:
+            last["ref"]["rows"][-1][0] = mr
+    d = case["defect"]
+    where = None
+    if d is not None and n:
+        ui = _resolve(case["upos"], n)
+        u = utts[ui]
+        Ti, k = u["feat"]["T"], case["over"]
+        rows = u["ref"]["rows"]
+        if d in ("ref_over", "ref_half", "ref_reversed") and not rows and case["ref_dim"] == 2:
+            rows.append([0, -1, -1])
+        ri = _resolve(case["rpos"], len(rows))
+        if d == "ali_long":
+            u["ali"]["vals"] = u["ali"]["vals"] + [0] * k
+        elif d == "ali_short":
+            u["ali"]["vals"] = u["ali"]["vals"][:-1]
+        elif d == "ali_up":
+            u["ali"]["dtype"] = "int32"
+        elif d == "ref_up":
+            u["ref"]["dtype"] = "int32"
+        elif d == "feat_width":
+            u["feat"]["F"] = F + 1
+        elif ri is not None and case["ref_dim"] == 2:
+            if d == "ref_over":
+                rows[ri][1:] = [min(max(rows[ri][1], 0), Ti), Ti + k]
+            elif d == "ref_half":
+                rows[ri][1:] = [-1, min(ri, Ti)]
+            elif d == "ref_reversed":
+                rows[ri][1:] = [Ti, Ti - 1]
+        where = [ui, ri]
+    return {"prefix": case["prefix"], "suffix": case["suffix"], "ali_dir": case["ali_dir"], "ref_dir": case["ref_dir"],
+            "utts": utts}, where
+
+
+def _large_check(case):
+    dcase, where = _expand_large(case)
+    k = case["fix"]
+    cl = ["n_%d" % case["n"]] if case["mode"] == "many_utts" else ["T_%d" % case["T"]] + (["R_%d" % case["R"]] if case["R"] > 3 else [])
+    with dirs.scratch_root() as root:
+        data_dir = os.path.join(root, "data")
+        dirs.write_dir(data_dir, dcase)
+        disk = dirs.read_dir(data_dir, dcase)
+        model = dirs.model_of(disk, dcase)
+        ds = _dataset(data_dir, dcase)
+        _expect_members(ds, model)
+        ds_defects = O.defects(model)
+        ok = not ds_defects
+        if k is None:
+            _strict_step(ds, data_dir, dcase, model, disk)
+            if ds_defects:
+                cl.append("rejected")
+        else:
+            # (fewer passes over the files than in fix_repair: a directory of 1025 utterances is 3075 files)
+            model, disk, ok = _fix_step(ds, data_dir, dcase, model, disk, k)
+            if ok:
+                require(not O.defects(model), "oracle: repaired directory not valid", O.defects(model), [])
+                _validate(ds)  # strict validation accepts what the fix pass left
+                if ds_defects:
+                    cl.append("repaired")
+            else:
+                cl.append("unrepairable")
+        if ok:
+            got = _run_info(root, data_dir, dcase, [])
+            want = O.report(model)
+            _compare_report(got, want)
+            cl.append("report")
+            for key in ("max_ali_class", "max_ref_class"):
+                if want[key] >= 99:
+                    cl.append("report_ids_ge_99")
+                if want[key] >= 999:
+                    cl.append("report_ids_ge_999")
+    for d in ds_defects:
+        cl.append("defect_" + d["code"].split(":")[0])
+        if ":" in d["code"] and int(d["code"].split(":")[1]) >= 1023:
+            cl.append("defect_at_row_ge_1023")
+        if d["uid"] is not None and where is not None and where[0] >= 126:
+            cl.append("defect_at_utt_ge_126")
+    big = max(case["n"], case["T"], case["R"])
+    for lim in (127, 255, 1023, 2049):
+        if big >= lim:
+            cl.append("size_ge_%d" % lim)
+    if case["layout"] != "own":
+        cl.append("on_views")
+    if not ds_defects:
+        cl.append("valid")
+    return Info(nontrivial=_nontrivial(ds_defects, k) or (not ds_defects and len(model["utts"]) >= 2), classes=sorted(set(cl)))
+
+
+subcheck("C12", "large_many_utts", _large_strategy("many_utts"), quick=70, thorough=400,
+         doc="15..257 utterances (15/16/17, 31/32/33, ... 255/256/257; thorough: also 1023/1024/1025 and 2049; files "
+             "expanded from a few integers by a pure function) with at most one defect placed at the first / middle / last "
+             "/ 16th / 1024th utterance: strict validation, fix=k, and the report compared with the same reference as "
+             "the small directories",
+         required_classes=["size_ge_127", "valid", "repaired", "report", "report_ids_ge_99", "report_ids_ge_999",
+                           "defect_at_utt_ge_126"])(_large_check)
+
+subcheck("C12", "large_long_utt", _large_strategy("long_utt"), quick=200, thorough=3000,
+         doc="1..2 utterances of 15..2049 frames and 0..2049 reference tokens (same size list, same expansion), class ids "
+             "up to 9/10/11, 99/100/101, 999/1000/1001 (key padding of the report), at most one defect at the first / "
+             "middle / last / 16th / 1024th row: strict validation, fix=k, report",
+         required_classes=["size_ge_255", "size_ge_1023", "size_ge_2049", "valid", "repaired", "rejected", "report",
+                           "report_ids_ge_99", "report_ids_ge_999", "defect_at_row_ge_1023", "on_views"])(_large_check)
